@@ -50,6 +50,14 @@ impl Frac {
     }
 }
 
+#[cfg(datamatrix_verif)]
+impl Frac {
+    /// The value in twelfths.
+    pub(crate) fn verif_twelfths(&self) -> C {
+        self.0
+    }
+}
+
 impl From<C> for Frac {
     fn from(c: C) -> Frac {
         Frac::new(c, 1)
